@@ -722,6 +722,8 @@ def c07(rng, count):
         if rng.random() < 0.2: argv += ["--fallback-oob", rng.choice(["", "G"])]
         if rng.random() < 0.08: argv.append("-m")
         pool = ["a", "b", " ", "é", "ß", "€", "漢", "𝄞", "😀", "é", "́", "-", ".", "_", "1", "\t", "\r", "‍", " "]
+        # the other mode's terminator is an ordinary character of a record (LF under -z, NUL otherwise)
+        pool += ["\n", "\n"] if z else ["\0"]
         recs = []
         if rng.random() < 0.25:
             # a history of records of one byte length but different character structure (and empty ones
